@@ -32,21 +32,11 @@ theorem list_action_executes_nothing (cfg : Cfg) (h : cfg.action = .list) (p : P
     (runBench cfg o w slot arg name isLast path).cases = path :: w.cases := by
   unfold runBench; simp only
 
-theorem foldl_runBench_cases (cfg : Cfg) (o : Opts) (slot : Nat) (f : Nat → Option String) (g : Nat → String)
-    (l : Nat → Bool) (path : Nat → String) (ks : List Nat) (w : W) :
-    (ks.foldl (fun w k => runBench cfg o w slot (f k) (g k) (l k) (path k)) w).cases
-      = (ks.map path).reverse ++ w.cases := by
-  induction ks generalizing w with
-  | nil => simp
-  | cons k ks ih => simp [List.foldl_cons, ih]
-
-theorem map_range_getD {α β} (is : List α) (d : α) (h : α → β) :
-    (List.range is.length).map (fun k => h (is.getD k d)) = is.map h := by
-  apply List.ext_getElem
-  · simp
-  · intro i h1 h2
-    simp at h1
-    simp [List.getD_eq_getElem?_getD, h1]
+theorem runArgs_cases (cfg : Cfg) (o : Opts) (slot : Nat) (names : List String) (full : String) :
+    ∀ (is : List Nat) (w : W), (runArgs cfg o slot names full is w).cases
+      = (is.map fun i => full ++ "::" ++ names.getD i "").reverse ++ w.cases
+  | [], w => by simp [runArgs]
+  | i :: rest, w => by rw [runArgs, runArgs_cases cfg o slot names full rest]; simp
 
 /-- what the leaf step of the terse walk prints -/
 def terseLeaf (cfg : Cfg) (e : Bench) (args : Option (List Nat)) (o : Option Opts) (full : String) : List String :=
@@ -69,9 +59,8 @@ theorem runBenchEntry_cases (cfg : Cfg) (hl : cfg.action ≠ .list) (w : W) (e :
     cases hn : e.args with
     | none => simp [line]
     | some names =>
-      simp only [foldl_runBench_cases]
-      rw [← map_range_getD (args.getD []) 0 (fun i => full ++ "::" ++ names.getD i "" ++ ": benchmark")]
-      simp [line, Function.comp_def, String.append_assoc]
+      simp only [runArgs_cases]
+      simp [line, Function.comp_def]
 
 mutual
 theorem runTree_cases (cfg : Cfg) (hl : cfg.action ≠ .list) (po : Option Opts) (pp : String) :
